@@ -165,3 +165,49 @@ de_harness! {
     }
 }
 
+de_harness! {
+    #[kani::unwind(6)]
+    fn bis_a_symlen() {
+        const N: usize = 4;
+        let buf: [u8; N] = kani::any();
+        let len: usize = kani::any();
+        kani::assume(len <= N);
+        let ot: Type = ty(TypeInner::Opt(ty(TypeInner::Nat8)));
+        let wt: Type = ty(TypeInner::Opt(ty(TypeInner::Bool)));
+        let mut de = mk_de(&buf[..len], wt, ot, cfg_none());
+        let r = <Option<u8>>::deserialize(&mut de);
+        kani::cover!(matches!(r, Ok(None)), "none");
+        std::mem::forget(r);
+        std::mem::forget(de);
+    }
+}
+de_harness! {
+    #[kani::unwind(6)]
+    fn bis_b_cfgany() {
+        const N: usize = 4;
+        let buf: [u8; N] = kani::any();
+        let ot: Type = ty(TypeInner::Opt(ty(TypeInner::Nat8)));
+        let wt: Type = ty(TypeInner::Opt(ty(TypeInner::Bool)));
+        let mut de = mk_de(&buf[..], wt, ot, cfg_any());
+        let r = <Option<u8>>::deserialize(&mut de);
+        kani::cover!(matches!(r, Ok(None)), "none");
+        std::mem::forget(r);
+        std::mem::forget(de);
+    }
+}
+de_harness! {
+    #[kani::unwind(6)]
+    fn bis_c_cfgclone() {
+        const N: usize = 4;
+        let buf: [u8; N] = kani::any();
+        let ot: Type = ty(TypeInner::Opt(ty(TypeInner::Nat8)));
+        let wt: Type = ty(TypeInner::Opt(ty(TypeInner::Bool)));
+        let cfg = cfg_none();
+        let mut de = mk_de(&buf[..], wt, ot, cfg.clone());
+        let r = <Option<u8>>::deserialize(&mut de);
+        kani::cover!(matches!(r, Ok(None)), "none");
+        std::mem::forget(r);
+        std::mem::forget(de);
+        std::mem::forget(cfg);
+    }
+}
